@@ -1,5 +1,5 @@
 //@unit node_restore_channels
-//@props C18 C11 C15 C05 C06 C13 C14
+//@props C18 C11 C15 C05 C06 C13 C14 C10
 // Contract on the channel part of a restart: Node::new_from_persistence (vls-core/src/node.rs).  For every persisted
 // channel entry the channel registered again carries keys derived from the SAME id as at creation (its initial id
 // `id0`, the key of the persisted entry), the persisted enforcement state and setup verbatim, and both of its ids.
@@ -93,7 +93,7 @@ impl VxChannelsGuard {
     // or that comes from the store (written by an earlier run under the same rule)
     #[verifier::external_body]
     pub fn insert(&mut self, k: ChannelId, v: VxSlot) -> (r: Option<VxSlot>)
-        requires slot_admissible(v@),                                                               //[C05.channel-map.ready-only-with-validated-setup]
+        requires slot_admissible(v@),                                                               //[C05.channel-map.ready-only-with-validated-setup] [C10.channel-map.no-ready-slot-before-the-last-refusal-point]
         ensures final(self)@ == old(self)@.insert(k, v)
     { unimplemented!() }
 }
@@ -347,7 +347,7 @@ impl VxNode {
         }
 //@end
 
-//@fn vls-core/src/node.rs :: impl Node :: setup_channel props=C18,C15,C05 optclosures
+//@fn vls-core/src/node.rs :: impl Node :: setup_channel props=C18,C15,C05,C10 optclosures
     requires setup.channel_value_sat <= 0x40_0000_0000_0000,     // input range: `channel_value_sat * 1000` (msat) does not wrap
     ensures
         // the ready channel carries the stub's six secrets (the ones derived from id0 at creation), both ids and the setup
